@@ -174,7 +174,8 @@ def generateTestcase (m : Mode) (isOther : Char → Bool) (cmd : List Char) (res
     | .ok => some (ex ++ exitCodeOpt code)
     | .malformed ls => (expectationLines m isOther ls).map (fun e => ex ++ e ++ exitCodeOpt code)
     | .invalidExit actual =>
-      (expectationLines m isOther (Newline.splitAtNewline out)).map (fun e => ex ++ e ++ exitCodeLine actual)
+      -- `[0]` is not written: an exit code of zero is the default (as for a passing test case)
+      (expectationLines m isOther (Newline.splitAtNewline out)).map (fun e => ex ++ e ++ exitCodeOpt actual)
 
 /-! ## Markdown and Cram wrappers -/
 
